@@ -297,7 +297,9 @@ def run_tree(rng, tier, rep):
         comp = composable(op, a, b)
         if op == "inv":
             A = a.full()
-            if A.shape[0] != A.shape[1] or abs(np.linalg.det(A)) < 1e-6:
+            # the inverse of an ill-conditioned matrix is not determined to the comparison's tolerance (the determinant says
+            # nothing about that): this property is about labels, such operands are left out
+            if A.shape[0] != A.shape[1] or abs(np.linalg.det(A)) < 1e-6 or np.linalg.cond(A) > 1e4:
                 continue
         try:
             with core.time_limit(30):
